@@ -225,6 +225,26 @@ func runZipFiles(c *core.Case, fsl []*mzFile) zipRun {
 	if why := archiveRestrictions(buf.Bytes()); why != "" {
 		add("c05:archive-restrictions", "the archive produced by Create breaks a documented restriction: %s", why)
 	}
+	// the same files under a module path with upper-case letters, a major-version suffix and a pre-release version:
+	// the archive must carry that module's prefix and pass its check
+	{
+		mod2 := module.Version{Path: "example.com/Azure/Mixed/v2", Version: "v2.1.0-pre.1"}
+		var b2 bytes.Buffer
+		if err := mzip.Create(&b2, mod2, files); err != nil {
+			add("c05:module-variant", "Create succeeds for %v but fails for %v: %v", zipMod, mod2, err)
+		} else {
+			z2 := filepath.Join(dir, "m2.zip")
+			os.WriteFile(z2, b2.Bytes(), 0644)
+			cf2, err2 := mzip.CheckZip(mod2, z2)
+			var want2 []string
+			for _, v := range gotV {
+				want2 = append(want2, mod2.Path+"@"+mod2.Version+"/"+v)
+			}
+			if err2 != nil || len(cf2.Invalid) > 0 || !core.Eq(nzs(cf2.Valid), nzs(want2)) {
+				add("c05:module-variant", "archive created for %v does not pass CheckZip with exactly the valid files: err %v invalid %q valid %q", mod2, err2, errPaths(cf2.Invalid), cf2.Valid)
+			}
+		}
+	}
 	var wantNames []string
 	for _, v := range gotV {
 		wantNames = append(wantNames, zipPrefix+v)
@@ -466,6 +486,21 @@ func dirVersusList(c *core.Case, fsl []*mzFile, desc string) []core.Violation {
 			}
 		}
 	}
+	// the same directory spelled in ways that are not clean: a trailing slash, a doubled separator, a dot element,
+	// through a subdirectory and back.  The tree is the same tree.
+	if e1 == nil {
+		m1, _ := zipEntries(b1.Bytes())
+		spellings := []string{root + "/", filepath.Dir(root) + "//" + filepath.Base(root), filepath.Dir(root) + "/./" + filepath.Base(root), root + "/."}
+		for _, sp := range spellings {
+			var b3 bytes.Buffer
+			e3 := mzip.CreateFromDir(&b3, zipMod, sp)
+			m3, _ := zipEntries(b3.Bytes())
+			if e3 != nil || !core.Eq(keysOf(m1), keysOf(m3)) {
+				vs = append(vs, core.Violation{Sig: "c17:dir-spelling", What: fmt.Sprintf("CreateFromDir on the directory spelled %q: err=%v entries %q; spelled cleanly: entries %q; files: %s", strings.Replace(sp, root, "<root>", 1), e3, keysOf(m3), keysOf(m1), desc), Case: c})
+				break
+			}
+		}
+	}
 	cd, _ := mzip.CheckDir(root)
 	cl, _ := mzip.CheckFiles(list)
 	rel := func(ps []string) []string {
@@ -522,7 +557,7 @@ func writeRawZip(path string, entries []mzEntry) error {
 				return err
 			}
 			io.Copy(w, &zeroReader{bigSize})
-		case "lie-more", "lie-less", "over", "huge":
+		case "lie-more", "lie-less", "lie-zero", "over", "huge":
 			// deflate the real content, declare another uncompressed size
 			var cb bytes.Buffer
 			fw, _ := newFlate(&cb)
@@ -532,6 +567,8 @@ func writeRawZip(path string, entries []mzEntry) error {
 			switch e.Size {
 			case "lie-less":
 				declared = uint64(len(data) + 4)
+			case "lie-zero":
+				declared = 0
 			case "over":
 				declared = uint64(mzip.MaxZipFile) + 1
 			case "huge":
@@ -660,7 +697,7 @@ func checkZipArchive(c *core.Case) ([]core.Violation, bool) {
 }
 
 var zipElems = []string{"a", "A", "b.go", "go.mod", "GO.MOD", "vendor", "modules.txt", "sub", "é", "É", "\u212a", "k", "\u017f", "s", "con", "aux.txt", "a~1", "a b",
-	".", "..", "a.", ".hg_archival.txt", "LICENSE", "中", "pkg", "x.go", "Sub", "v2", "internal", "x*y", "\u00b5", "\u039c", "\u03bc", "\u03b2", "\u0392"}
+	".", "..", "a.", ".hg_archival.txt", "LICENSE", "中", "pkg", "x.go", "Sub", "v2", "internal", "x*y", "aux.tar.gz", "example.com", "m@v1.0.0", "\u00b5", "\u039c", "\u03bc", "\u03b2", "\u0392"}
 
 var zipBenign = []string{"a", "b.go", "pkg", "sub", "x.go", "é", "v2", "internal", "LICENSE", "中", "k", "s", "a b", "vendor", "go.mod", "A", "Sub", "\u039c", "\u03bc"}
 
@@ -720,7 +757,7 @@ func (w *modzipWorld) Record(rng *rand.Rand, n int, emit func(k string, in, obs 
 				if !benign && rng.Intn(40) == 0 {
 					size = []string{"over", "huge"}[rng.Intn(2)]
 				} else if !benign && rng.Intn(20) == 0 {
-					size = []string{"lie-more", "lie-less"}[rng.Intn(2)]
+					size = []string{"lie-more", "lie-less", "lie-zero"}[rng.Intn(3)]
 				}
 				entries = append(entries, mzEntry{Name: concrete.Ints(name), Size: size})
 				ev = append(ev, map[string]any{"name": concrete.Ints(name), "size": size})
